@@ -268,11 +268,12 @@ func Supervise(o Options) int {
 	var mu sync.Mutex
 	var wg sync.WaitGroup
 	harnessErr := ""
-	for i := 0; i < n; i++ {
-		wg.Add(1)
-		go func(i int) {
-			defer wg.Done()
+	var retry []int // shards whose worker ran out of system memory in harness code
+	var runShard func(i int, again bool)
+	runShard = func(i int, again bool) {
+		{
 			wdir := filepath.Join(o.Scratch, fmt.Sprintf("w%02d", i))
+			os.RemoveAll(wdir)
 			os.MkdirAll(wdir, 0o755)
 			out := filepath.Join(wdir, "result.json")
 			logf := filepath.Join(wdir, "log.txt")
@@ -328,11 +329,28 @@ func Supervise(o Options) int {
 					Detail: "worker process died inside moss: " + first + "\n" + tail(text, 3000), Case: pr.Case, Replay: pr.Body})
 				return
 			}
+			if !again && strings.Contains(text, "fatal error: runtime: out of memory") {
+				// the machine ran out of memory (no moss frame anywhere in the
+				// dump): run this shard once more, alone, after the others
+				retry = append(retry, i)
+				total.Notes = append(total.Notes, fmt.Sprintf("worker %d ran out of system memory; shard re-run alone", i))
+				return
+			}
 			harnessErr = fmt.Sprintf("worker %d failed without result (err=%v); log tail: %s", i, err, tail(text, 1500))
 			saveLog(o, i, logb)
+		}
+	}
+	for i := 0; i < n; i++ {
+		wg.Add(1)
+		go func(i int) {
+			defer wg.Done()
+			runShard(i, false)
 		}(i)
 	}
 	wg.Wait()
+	for _, i := range retry {
+		runShard(i, true)
+	}
 	wall := time.Since(start).Seconds()
 
 	if harnessErr != "" {
